@@ -33,6 +33,9 @@ from flax import serialization
 from harness import core, dsrun
 
 
+NP_TOL = 1e-4
+
+
 def _sha(b):
   return hashlib.sha256(b).hexdigest()[:16]
 
@@ -40,9 +43,11 @@ def _sha(b):
 class Box:
   """One optimizer OBJECT (fresh closure, fresh jit cache entry) with its state."""
 
-  def __init__(self, variant, shapes, seed, eager=False):
+  def __init__(self, variant, shapes, seed, eager=False, np_leaves=False):
     kind, o = variant["kind"], variant["o"]
     self.kind = kind
+    self.eager = eager
+    self.np_leaves = np_leaves
     self.shapes = [tuple(s) for s in shapes]
     if kind == "ds":
       self.r = dsrun.Runner(o, shapes, seed)
@@ -82,6 +87,14 @@ class Box:
       self.r.state = s
 
   def step(self, grads):
+    if self.eager and not self.np_leaves:
+      # op-by-op: a dry run from the same state object whose result is thrown away - the transformation
+      # must not depend on how often it was called (jax leaves are immutable; hidden Python-side state is not)
+      with contextlib.redirect_stdout(io.StringIO()):
+        if self.r is None:
+          self._upd(grads, self._state, self.params)
+        else:
+          self.r._upd(grads, self.r.state, self.r.params)
     if self.r is None:
       u, self._state = self._upd(grads, self._state, self.params)
     else:
@@ -96,7 +109,12 @@ class Box:
     """self must be a FRESH object: its current state is the template produced by init."""
     template = self.state
     restored = serialization.from_bytes(template, blob)
-    self.state = jax.tree.map(jnp.asarray, restored)    # as any checkpoint loader does
+    if self.np_leaves:
+      # what flax hands back: host NumPy leaves, fed to the (op-by-op) update as they are; made writable
+      # as pickle / np.load would return them, so that an in-place write is silent rather than an error
+      self.state = jax.tree.map(lambda x: np.array(x) if isinstance(x, np.ndarray) else x, restored)
+    else:
+      self.state = jax.tree.map(jnp.asarray, restored)    # as most checkpoint loaders do
     return jax.tree.structure(self.state)
 
   def count(self):
@@ -145,7 +163,8 @@ def _corrupt(state):
   return jax.tree.unflatten(tdef, leaves)
 
 
-def run_schedule(variant, shapes, T, seed, eager, sched, first, grads, sb, ub, td, stats, corrupt=False):
+def run_schedule(variant, shapes, T, seed, eager, sched, first, grads, sb, ub, td, stats, corrupt=False,
+                 np_leaves=False):
   """first: the optimizer object of the uninterrupted run (its compiled program is reused for the
   segment before the first crash; every CrashRestore builds a new object)."""
   mism, events = [], []
@@ -170,18 +189,24 @@ def run_schedule(variant, shapes, T, seed, eager, sched, first, grads, sb, ub, t
       if not ev["uref"]:
         a = np.frombuffer(u, np.float32); b = np.frombuffer(ub[count], np.float32)
         rel = float(np.abs(a.astype(np.float64) - b).max() / max(np.abs(b).max(), 1e-30)) if a.shape == b.shape else float("inf")
-        mism.append({"clause": "update_differs_from_uninterrupted", "at": i, "count": count, "rel": rel})
+        if np_leaves and rel <= NP_TOL:
+          # host NumPy leaves are combined by NumPy, not by XLA (no fused multiply-add): last-bit differences
+          # are the environment's, not the optimizer's - this leg looks for O(1) effects of in-place writes
+          ev["uref"] = True
+          stats["np_leaf_worst"] = max(stats.get("np_leaf_worst", 0.0), rel)
+        else:
+          mism.append({"clause": "update_differs_from_uninterrupted", "at": i, "count": count, "rel": rel})
       count += 1
     elif act["a"] == "save":
       disk, disk_count = box.save(), count
     elif act["a"] == "crash":
-      box = Box(variant, shapes, seed, eager)       # everything outside the state pytree is lost
+      box = Box(variant, shapes, seed, eager, np_leaves)       # everything outside the state pytree is lost
       tdef = box.restore(disk)
       if corrupt:
         box.state = _corrupt(box.state)
       stats["restores"] += 1
       count = disk_count
-      lt = leaf_types(box.state)
+      lt = leaf_types(box.state) if not np_leaves else td[count][1]     # NumPy leaves carry no weak_type
       ev["tref"] = (tdef == td[count][0]) and (lt == td[count][1])
       if tdef != td[count][0]:
         mism.append({"clause": "treedef_differs_after_restore", "at": i, "count": count,
@@ -193,7 +218,7 @@ def run_schedule(variant, shapes, T, seed, eager, sched, first, grads, sb, ub, t
     else:
       raise ValueError(act)
     live = box.save()
-    ev["sref"] = (live == sb[count])
+    ev["sref"] = (live == sb[count]) or np_leaves        # NumPy-leaf leg: updates are compared with a tolerance
     if not ev["sref"]:
       mism.append({"clause": {"step": "state_differs_from_uninterrupted",
                               "save": "save_changed_live_state",
@@ -225,9 +250,11 @@ def handle(job):
       results = []
       for sched in job["schedules"]:
         mism, events = run_schedule(variant, shapes, T, seed, eager, sched, first, grads, sb, ub, td, stats,
-                                    corrupt=job.get("corrupt_restore", False))
+                                    corrupt=job.get("corrupt_restore", False),
+                                    np_leaves=job.get("np_leaves", False))
         results.append({"mismatches": mism, "events": events})
       return {"error": None, "results": results, "restores": stats["restores"],
+              "np_leaf_worst": stats.get("np_leaf_worst", 0.0),
               "state_bytes": len(sb[-1]), "treedef": str(td[-1][0])[:400]}
     if kind == "xref":
       box, grads, sb, ub, td = uninterrupted(variant, shapes, T, seed, False)
